@@ -116,29 +116,51 @@ fn vk_rf_scale(n: u128, d: u128, e: i32, p: u32) -> i32 {
     vk_rf_bitlen(n) + e - vk_rf_bitlen(d) - (p as i32 + 1)
 }
 
-/// Known finding (R1), as a predicate over the inputs: with s as above, x / 2^s is not an integer and its nearest
-/// integer Q' (ties to even) times 2^s is exactly half-way between two neighbouring values of the format (including
-/// the pairs (0, smallest subnormal) and (largest finite, 2^(emax+1))).   Requires 0 < n < 2^64, 0 < d < 2^16.
-fn vk_rf_tie_region(n: u128, d: u128, e: i32, p: u32, w: u32) -> bool {
+/// Known finding (R1) as a predicate over the inputs: "x lies within half a unit of the intermediate quotient of a
+/// rounding boundary of the format, but not on it", precisely
+///     exists mu: mu is the midpoint of two neighbouring values of the format (including the pairs (0, smallest
+///     subnormal) and (largest finite, 2^(emax+1))), mu is a multiple of 2^s, and 0 < |x - mu| < 2^(s-1), or
+///     |x - mu| == 2^(s-1) with mu / 2^s even                                   [s = `vk_rf_scale`]
+/// (<=> x / 2^s is not an integer and its nearest integer, ties to even, times 2^s is such a midpoint).
+/// Evaluated for the (at most two) midpoints next to the float that came back: if x is in the region, those are the only
+/// candidates unless the float is not even one of the two neighbours of x - and then the main harness fails anyway.
+/// Requires 0 < n < 2^64, 0 < d < 2^16.
+fn vk_rf_tie_region(n: u128, d: u128, e: i32, p: u32, w: u32, bits: u64) -> bool {
+    let emaxb: u64 = (1u64 << w) - 1;
     let bias: i32 = (1i32 << (w - 1)) - 1;
+    let eb = (bits >> p) & emaxb;
+    let frac = bits & ((1u64 << p) - 1);
     let s = vk_rf_scale(n, d, e, p);
-    // x / 2^s = nn / dd
-    let t = p as i32 + 1 + vk_rf_bitlen(d) - vk_rf_bitlen(n);
-    let (nn, dd) = if t >= 0 { (n << (t as u32), d) } else { (n, d << ((-t) as u32)) };
-    let q0 = nn / dd;
-    let r = nn - q0 * dd;
-    if r == 0 {
-        return false;
+    let m: u128 = (if eb == 0 { frac } else { frac | (1u64 << p) }) as u128;
+    let q: i32 = (if eb == 0 { 1 } else { eb as i32 }) - bias - p as i32;
+    if eb == emaxb {
+        // infinity: the only boundary next to it is the overflow threshold (2^(p+2) - 1) * 2^(q_top - 1)
+        let q_top: i32 = (emaxb as i32 - 1) - bias - p as i32;
+        return frac == 0 && vk_rf_near(n, d, e, s, (1u128 << (p + 2)) - 1, q_top - 1);
     }
-    let q1 = if 2 * r > dd || (2 * r == dd && q0 % 2 == 1) { q0 + 1 } else { q0 };
-    // the format keeps the bits of Q' * 2^s from position max(top - p, emin - p) upwards: k bits of Q' are dropped
-    let k_norm = vk_rf_bitlen(q1) - (p as i32 + 1);
-    let k_sub = (1 - bias - p as i32) - s;
-    let k = if k_norm > k_sub { k_norm } else { k_sub };
-    if k < 1 || k > 64 {
-        return false; // nothing dropped / Q' < 2^(k-1): far below the first midpoint
+    let up = vk_rf_near(n, d, e, s, 2 * m + 1, q - 1);
+    let down = if m == 0 {
+        false
+    } else if eb > 1 && frac == 0 {
+        vk_rf_near(n, d, e, s, 4 * m - 1, q - 2)
+    } else {
+        vk_rf_near(n, d, e, s, 2 * m - 1, q - 1)
+    };
+    up || down
+}
+
+/// mu = mid * 2^mq (mid odd) is a multiple of 2^s and 0 < |n / d * 2^e - mu| <(=) 2^(s-1) as specified above.
+fn vk_rf_near(n: u128, d: u128, e: i32, s: i32, mid: u128, mq: i32) -> bool {
+    let k = mq - s;
+    if k < 0 || k > 54 {
+        return false; // not a multiple of 2^s / further away than any x of this scale
     }
-    (q1 & ((1u128 << (k as u32)) - 1)) == (1u128 << ((k - 1) as u32))
+    // everything times d, in units of 2^(s-1):  mu * d = a,  2^(s-1) * d = d
+    let a = (mid * d) << ((k + 1) as u32);
+    let c = vk_rf_cmp(n, e, a, s - 1);
+    let lo = vk_rf_cmp(n, e, a - d, s - 1);
+    let hi = vk_rf_cmp(n, e, a + d, s - 1);
+    c != 0 && ((lo > 0 && hi < 0) || ((lo == 0 || hi == 0) && k >= 1))
 }
 
 /// Known finding (R2), f64 only: s == -1074 - 54 and x > 2^-1075 (the code returns 0.0, the nearest f64 is 2^-1074).
@@ -185,8 +207,8 @@ fn vk_rf_stub_div_rem<'r>(lhs: UBig, rhs: &'r UBig) -> (UBig, UBig)
 where
     'r: 'r, // early-bound like the lifetime parameter of the impl (Kani compares the number of generics)
 {
-    let a: u128 = lhs.try_into().unwrap(); // a heap operand fails the harness
-    let b: u128 = rhs.try_into().unwrap();
+    let a: u64 = lhs.try_into().unwrap(); // an operand of more than one word fails the harness
+    let b: u64 = rhs.try_into().unwrap();
     match a.checked_div(b) {
         Some(res) => (UBig::from(res), UBig::from(a % b)),
         None => panic!(),
@@ -236,26 +258,26 @@ enum VkRfMode {
 fn vk_rf_check32(mode: VkRfMode, neg: bool, n: u64, e1: usize, d: u16, e2: usize) {
     assume(d != 0);
     let (nn, dd, e) = (n as u128, d as u128, e1 as i32 - e2 as i32);
-    let tie = n != 0 && vk_rf_tie_region(nn, dd, e, 23, 8);
+    let (bits, exact, pos) = vk_rf_flat32(vk_rf_repr(neg, n, e1, d, e2).to_f32());
+    let tie = n != 0 && vk_rf_tie_region(nn, dd, e, 23, 8, bits);
     match mode {
         VkRfMode::Main => assume(!tie),
         _ => assume(tie),
     }
-    let (bits, exact, pos) = vk_rf_flat32(vk_rf_repr(neg, n, e1, d, e2).to_f32());
     assert!(vk_rf_rne_ok(neg, nn, dd, e, 23, 8, bits, exact, pos));
 }
 
 fn vk_rf_check64(mode: VkRfMode, neg: bool, n: u64, e1: usize, d: u16, e2: usize) {
     assume(d != 0);
     let (nn, dd, e) = (n as u128, d as u128, e1 as i32 - e2 as i32);
-    let tie = n != 0 && vk_rf_tie_region(nn, dd, e, 52, 11);
+    let (bits, exact, pos) = vk_rf_flat64(vk_rf_repr(neg, n, e1, d, e2).to_f64());
+    let tie = n != 0 && vk_rf_tie_region(nn, dd, e, 52, 11, bits);
     let cut = n != 0 && vk_rf_cutoff_region(nn, dd, e);
     match mode {
         VkRfMode::Main => assume(!tie && !cut),
         VkRfMode::FindingTie => assume(tie && !cut),
         VkRfMode::FindingCutoff => assume(cut),
     }
-    let (bits, exact, pos) = vk_rf_flat64(vk_rf_repr(neg, n, e1, d, e2).to_f64());
     assert!(vk_rf_rne_ok(neg, nn, dd, e, 52, 11, bits, exact, pos));
 }
 
@@ -283,4 +305,97 @@ fn vk_ratio_to_float_k_probe_u16() {
     let n: u32 = any();
     vk_rf_check32(VkRfMode::Main, false, n as u64, 0, 7, 0);
     cover();
+}
+
+// TEMPORARY native self-test (removed before delivery)
+#[cfg(not(kani))]
+#[test]
+fn vk_rf_selftest_tmp() {
+    extern crate std;
+    use std::println;
+    let mut seed: u64 = 0x9e3779b97f4a7c15;
+    let mut rnd = move || {
+        seed ^= seed << 13;
+        seed ^= seed >> 7;
+        seed ^= seed << 17;
+        seed
+    };
+    // 1. oracle against hardware RNE for d = 2^k
+    for _ in 0..200000 {
+        let bitsn = (rnd() % 64) as u32 + 1;
+        let n = rnd() >> (64 - bitsn);
+        let k = (rnd() % 16) as u32;
+        let f = n as f32; // RNE
+        let ex = f as u64 == n && (f as f64) == (n as f64) && (n as f32 as f64 as u128 == n as u128);
+        let _ = ex;
+        let y = f.to_bits() as u64 - ((k as u64) << 23); // divide by 2^k (normal range)
+        if n == 0 { continue; }
+        let exact = (f as f64 as u128) == n as u128 && (f as f64) < 1.9e19;
+        let exact = if f as f64 >= 1.8446744073709552e19 { false } else { exact };
+        let pos = (f as f64) > 0.0 && ((f as f64 as u128) > n as u128 || f as f64 >= 1.8446744073709552e19);
+        assert!(vk_rf_rne_ok(false, n as u128, 1u128 << k, 0, 23, 8, y, exact, pos), "n={n} k={k}");
+        assert!(!vk_rf_rne_ok(false, n as u128, 1u128 << k, 0, 23, 8, y + 1, false, true), "n={n} k={k} +1");
+        assert!(!vk_rf_rne_ok(false, n as u128, 1u128 << k, 0, 23, 8, y - 1, false, false), "n={n} k={k} -1");
+        let g = n as f64;
+        let y = g.to_bits() - ((k as u64) << 52);
+        let exact = (g as u128) == n as u128 && g < 1.8446744073709552e19;
+        let pos = g >= 1.8446744073709552e19 || (g as u128) > n as u128;
+        assert!(vk_rf_rne_ok(false, n as u128, 1u128 << k, 0, 52, 11, y, exact, pos), "64 n={n} k={k}");
+        assert!(!vk_rf_rne_ok(false, n as u128, 1u128 << k, 0, 52, 11, y + 1, false, true));
+        assert!(!vk_rf_rne_ok(false, n as u128, 1u128 << k, 0, 52, 11, y - 1, false, false));
+    }
+    // 2. the code against the oracle: where does it fail?
+    let (mut fail32, mut fail32_in, mut in32, mut tot) = (0u64, 0u64, 0u64, 0u64);
+    let (mut fail64, mut fail64_in, mut in64) = (0u64, 0u64, 0u64);
+    for it in 0..400000u64 {
+        let bitsn = (rnd() % 64) as u32 + 1;
+        let mut n = rnd() >> (64 - bitsn);
+        let bitsd = (rnd() % 16) as u32 + 1;
+        let d = ((rnd() >> (64 - bitsd)) as u16).max(1);
+        let neg = rnd() & 1 == 1;
+        // exponents: normal range, f32 subnormal / overflow, f64 subnormal / overflow
+        let (e1, e2): (usize, usize) = match it % 8 {
+            0 | 1 | 2 => (0, 0),
+            3 => (0, 100 + (rnd() % 130) as usize),
+            4 => (40 + (rnd() % 100) as usize, 0),
+            5 => (0, 1000 + (rnd() % 150) as usize),
+            6 => (900 + (rnd() % 150) as usize, 0),
+            _ => ((rnd() % 64) as usize, (rnd() % 64) as usize),
+        };
+        if it % 5 == 0 {
+            // steer towards a 25-bit / 54-bit quotient near a midpoint
+            let dd = d as u64;
+            let base: u64 = if it % 10 == 0 { (1 << 24) + 2 * (rnd() % 1000) + 1 } else { (1u64 << 53) + 2 * (rnd() % 1000) + 1 };
+            if let Some(v) = base.checked_mul(dd) {
+                n = v.wrapping_add(rnd() % dd).wrapping_sub(rnd() % dd);
+            }
+        }
+        let (nn, dd, e) = (n as u128, d as u128, e1 as i32 - e2 as i32);
+        tot += 1;
+        let r = vk_rf_repr(neg, n, e1, d, e2);
+        let (bits, exact, pos) = vk_rf_flat32(r.to_f32());
+        let ok = vk_rf_rne_ok(neg, nn, dd, e, 23, 8, bits, exact, pos);
+        let tie = n != 0 && vk_rf_tie_region(nn, dd, e, 23, 8, bits);
+        in32 += tie as u64;
+        if !ok {
+            fail32 += 1;
+            fail32_in += tie as u64;
+            if !tie {
+                println!("f32 FAIL outside region: neg={neg} n={n} e1={e1} d={d} e2={e2} bits={bits:#x} exact={exact} pos={pos}");
+            }
+        }
+        let (bits, exact, pos) = vk_rf_flat64(r.to_f64());
+        let ok = vk_rf_rne_ok(neg, nn, dd, e, 52, 11, bits, exact, pos);
+        let tie = n != 0 && vk_rf_tie_region(nn, dd, e, 52, 11, bits);
+        let cut = n != 0 && vk_rf_cutoff_region(nn, dd, e);
+        in64 += (tie || cut) as u64;
+        if !ok {
+            fail64 += 1;
+            fail64_in += (tie || cut) as u64;
+            if !(tie || cut) {
+                println!("f64 FAIL outside region: neg={neg} n={n} e1={e1} d={d} e2={e2} bits={bits:#x} exact={exact} pos={pos}");
+            }
+        }
+    }
+    println!("total {tot}: f32 fails {fail32} (in region {fail32_in}, region size {in32}); f64 fails {fail64} (in region {fail64_in}, region size {in64})");
 }
